@@ -10,7 +10,7 @@ const S: &[&str] = &[
 	"''", "'a'", "'ab'", "'abc'", "'aaa'", "'é'", "'éé'", "'€'", "'a€b'", "'😀'", "'a😀b'", "'  x '", "'0'", "'-1'", "'12a'", "'0x1F'", "'-'", "'+'",
 	"'1e400'", "'%'", "','", "'\\n'", "'\\u0000'", "'[1,'", "'{\"a\":1}'", "'a: 1\\nb: ['", "'- - -'", "'&a [*a]'", "'QQ=='", "'Q'", "'===='", "'w6k='", "'/w=='",
 	"'a.b'", "'(a'", "'a*'", "'(?P<n>a)|'", "'\\\\'", "'é' + 'a'", "std.repeat('é', 50) + std.repeat('a', 60)", "'0777'", "'08'", "'-0'", "'ÿ'", "'İ'", "'ß'",
-	"'a\\tb'", "'\\r\\n'", "'9007199254740993'", "'99999999999999999999999'", "'.'", "'..'", "'/a/b'", "'a/'",
+	"'é<b>'", "'日本 & 中国'", "\"Zoë's\"", "'<é'", "'ü\">'", "'a\\tb'", "'\\r\\n'", "'9007199254740993'", "'99999999999999999999999'", "'.'", "'..'", "'/a/b'", "'a/'",
 ];
 const N: &[&str] = &[
 	"0", "1", "-1", "2", "3", "0.5", "-0.5", "1.5", "255", "256", "65", "1114111", "1114112", "55296", "57343", "2147483647", "2147483648", "-2147483648",
@@ -29,7 +29,7 @@ const A: &[&str] = &[
 	"[0.5, -1]", "[255, 254, 0]", "[256]", "[-1]", "[1.5]", "['a', ['b']]", "std.range(1, 5)", "std.makeArray(3, function(i) i)", "[1, 2, 3][1:]",
 	"std.reverse([1, 2])", "[1, 2, 3, 4, 5, 6, 7, 8, 9]", "[[1, 2], [3]]", "[{ a: 2 }, { a: 1 }]", "[error 'E']", "[function(x) x]", "['b', 'a', 'é', 'B']",
 	"std.map(function(x) x * 2, [1, 2])", "[1, 2] + std.makeArray(1200, function(i) i)", "[[1, 'a'], [1, 'b']]", "['tag', { a: 1 }, 'text', ['b']]", "[240, 159, 152]",
-	"[195]", "[195, 169, 255]",
+	"[195]", "[195, 169, 255]", "['a', { 'é': 'ü<' }, 'é&']", "['é', {}, ['b', { k: \"ë'\" }, '日本 > 中国']]",
 ];
 const O: &[&str] = &[
 	"{}", "{ a: 1 }", "{ a: 1, b:: 2 }", "{ a: { b: { c: null } } }", "{ '': 1 }", "{ 'é': 'é' }", "{ a: null, b: [] }", "{ a+: 1 }", "{ assert false, a: 1 }",
